@@ -682,13 +682,20 @@ def _run(eng, contract, fn, res):
             if sm.check() == z3.unsat:
                 merged_ok = True
                 dtm = (time.time() - t0m) / len(live)
+        nfail = 0
         for ob in obs:
             if getattr(ob, "trivial", False):
                 status, backend, dt, detail = "discharged", "syntactic", 0.0, None
             elif merged_ok:
                 status, backend, dt, detail = "discharged", "z3", dtm, None
+            elif nfail >= 2 and len(live) > 2:
+                # the same clause already failed on two paths: keep the run
+                # short, the remaining paths are reported as not attempted
+                status, backend, dt, detail = "unknown", "skipped", 0.0, "same obligation not discharged on an earlier path; not attempted"
             else:
-                status, backend, dt, detail = discharge(eng, ob)
+                status, backend, dt, detail = discharge(eng, ob, quick_ms=(3000 if len(live) > 2 and nfail == 0 and False else None))
+                if status != "discharged":
+                    nfail += 1
             res.obligations.append(
                 {"label": ob.label, "kind": ob.kind, "status": status, "backend": backend, "time_s": dt, "detail": detail, "line": ob.lineno}
             )
